@@ -189,8 +189,20 @@ class Normaliser:
                 text = text[:mm.start()] + text[e:]
             else:
                 se = rs.stmt_end(m, e, len(m))
-                self.note('N5' if 'feature' in attr else 'N2', where, text[mm.start():se], '(dropped: inactive cfg)')
-                text = text[:mm.start()] + text[se:]
+                st = mm.start()
+                # doc comments that belong to the dropped item go with it
+                while True:
+                    prev_nl = text.rfind('\n', 0, st - 1) if st > 0 else -1
+                    line = text[prev_nl + 1:st]
+                    if line.strip() == '' and prev_nl >= 0:
+                        pl = text.rfind('\n', 0, prev_nl)
+                        cand = text[pl + 1:prev_nl]
+                        if cand.strip().startswith('///'):
+                            st = pl + 1
+                            continue
+                    break
+                self.note('N5' if 'feature' in attr else 'N2', where, text[st:se], '(dropped: inactive cfg)')
+                text = text[:st] + text[se:]
         # debug_assert!, logging macros
         for rx, label in ((DEBUG_ASSERT, 'debug_assert'), (LOG_MACROS, 'logging')):
             while True:
@@ -384,11 +396,15 @@ class Unit:
         return src, it
 
     def find_in(self, src, scope, p, spec):
-        mm = re.match(r'impl\s+(?:(\w+)\s+for\s+)?(\w+)$', p)
+        mm = re.match(r'impl\s+(?:([\w:<>,&\'\s]+?)\s+for\s+)?(\w+)$', p)
         cands = []
         if mm:
             tr, ty = mm.group(1), mm.group(2)
-            cands = [i for i in scope if i.kind == 'impl' and i.name == ty and i.trait == tr]
+            if tr and '<' in tr:
+                trn = re.sub(r'\s+', '', tr)
+                cands = [i for i in scope if i.kind == 'impl' and i.name == ty and i.trait_full == trn]
+            else:
+                cands = [i for i in scope if i.kind == 'impl' and i.name == ty and i.trait == tr]
             if not cands:
                 raise GenError('lost anchor: %s (no `%s`)' % (spec, p))
             if len(cands) > 1:
@@ -509,7 +525,7 @@ class Unit:
         elems = [p.strip() for p in re.split(r'\s+::\s+', spec.strip())][1:]
         qual = []
         for e in elems:
-            mm = re.match(r'impl\s+(?:(\w+)\s+for\s+)?(\w+)$', e)
+            mm = re.match(r'impl\s+(?:([\w:<>,&\'\s]+?)\s+for\s+)?(\w+)$', e)
             if mm:
                 qual.append(('<%s as %s>' % (mm.group(2), mm.group(1))) if mm.group(1) else mm.group(2))
             else:
